@@ -43,7 +43,7 @@ func (e *env) runPointTable(ts TableSpec, idx int) {
 			c.Trans(e.trans)
 			lo, hi := vrange(es, vb, x.Prefix)
 			c.State(vlib.Hash("point", visibleString(es[lo:hi])))
-			if hi-lo >= 1 && hi-lo < len(ts.ents()) {
+			if hi-lo >= 1 && hi-lo < len(es) {
 				c.Nontrivial(vlib.Hash("point", ts.Mask, ts.Layout, ts.Format, x.String(), vb.String()))
 			}
 			if f != nil {
